@@ -44,6 +44,7 @@ import GM.Proof.AstTrace
 import GM.Props.Inlines
 import GM.Props.Blocks
 import GM.Props.Wf0
+import GM.Props.C05E2E
 
 namespace GM.Props.C05
 
@@ -277,5 +278,60 @@ theorem block_lines_wellformed : type_of% @GM.Props.Wf0.inline_lines_wellformed 
 /-- (re-export of `GM.Props.Wf0.lines_ordered_reduction`) **what `LinesInRange` still needs**: the range clause is proved for all blocks and the order clause for the non-raw
     ones, so `GM.Props.Blocks.LinesInRange src` is equivalent to the order clause for the three raw kinds alone. -/
 theorem block_lines_order_remaining : type_of% @GM.Props.Wf0.lines_ordered_reduction := @GM.Props.Wf0.lines_ordered_reduction
+
+/-- (re-export of `GM.Props.C05E2E.parser_output_wellformed_partial`) `parser_output_wellformed_partial` (C05 over `GM.Convert`). For EVERY byte string `src` and Unicode class
+    assignment: when the parse phases answer the tree `a`, its position dump passes `wfAst` — clause (a) by
+    construction; clause (b) root / heading levels / kinds / inline places / code spans / emphasis levels / links
+    proved; clause (c) proved for ALL inline segments (range, order, padding, inside the block's lines) and for info /
+    closure segments — GIVEN, for the store `st` the block phase returns, the FOUR named hypotheses `StoreHypsCore src st`:
+        `lines` (LinesInRange — the shape of `GM.Blocks.NodesOK`), `ord` (LinesOrdered — the shape of
+        `GM.Blocks.OrdFrom 0`), `noLines` (Document and List nodes have no lines), `listShape` (a child is a ListItem
+        exactly when its parent is a List; one direction is `KidsOK.kids`).
+    No hypothesis about the inline phase remains. -/
+theorem parser_output_wellformed_partial : type_of% @GM.Props.C05E2E.parser_output_wellformed_partial := @GM.Props.C05E2E.parser_output_wellformed_partial
+
+/-- (re-export of `GM.Props.C05E2E.clause_a_by_construction`) `clause_a_by_construction`. For ANY dump `t` built as nested lists, after numbering (`relabel`): no id occurs twice
+    and every node's forward walk, backward walk, ChildCount, HasChildren and its children's Parent() agree with the
+    nesting — so `wfAst` answers "well formed" as soon as the identity-free clauses (`semWf`: kinds, places, levels,
+    segments) hold everywhere. -/
+theorem clause_a_by_construction : type_of% @GM.Props.C05E2E.clause_a_by_construction := @GM.Props.C05E2E.clause_a_by_construction
+
+/-- (re-export of `GM.Props.C05E2E.root_is_document`) `root_is_document`: node 0 of every store the block phase returns — the root of the tree — is the Document
+    (a frame invariant: no step of the block phase writes a node's kind; carried through `runT` by `Keeps`) -/
+theorem root_is_document : type_of% @GM.Props.C05E2E.root_is_document := @GM.Props.C05E2E.root_is_document
+
+/-- (re-export of `GM.Props.C05E2E.inline_nodes_legal`) `inline_nodes_legal`. The inline children `parseBlock` answers, dumped below a block (or inline node) that is
+    neither the Document nor a List: only the public kinds Text / CodeSpan / Emphasis / Link / Image / AutoLink /
+    RawHTML (no Delimiter, no link-label bookkeeping node), inline nodes only below blocks and inline nodes, a CodeSpan
+    holds only Text, emphasis levels 1..2, no Link inside a Link at any depth, and — given their range — every Text /
+    RawHTML segment passes the range clause. From the shape theorem of the inline phase, for every source / lines /
+    reference map. -/
+theorem inline_nodes_legal : type_of% @GM.Props.C05E2E.inline_nodes_legal := @GM.Props.C05E2E.inline_nodes_legal
+
+/-- (re-export of `GM.Props.C05E2E.block_node_clauses`) `block_node_clauses`: all identity-free clauses of one block node of the dump from the per-node facts `BlockP`
+    (heading level, lines / info / closure in range, lines increasing, Document and List without lines), the facts
+    `KidsP` about its inline children and the ListItem ⇔ List relation to its parent -/
+theorem block_node_clauses : type_of% @GM.Props.C05E2E.block_node_clauses := @GM.Props.C05E2E.block_node_clauses
+
+/-- (re-export of `GM.Props.C05E2E.inline_segments_end_inside_block`) `inline_segments_end_inside_block`: the segments the inline phase records for a block, in tree order, are in
+    range, ordered, and end at or before the end of the block's LAST line (new; GM.Props.Inlines bounds them by
+    `len(source)`) -/
+theorem inline_segments_end_inside_block : type_of% @GM.Props.C05E2E.inline_segments_end_inside_block := @GM.Props.C05E2E.inline_segments_end_inside_block
+
+/-- (re-export of `GM.Props.C05E2E.inline_segments_unpadded`) `inline_segments_unpadded`: the segments the inline phase records have padding 0 (round 2: PROVED, was a named
+    hypothesis) — so with their range (`GM.Props.Inlines.text_segments_in_range_and_ordered`) they pass `segOK` -/
+theorem inline_segments_unpadded : type_of% @GM.Props.C05E2E.inline_segments_unpadded := @GM.Props.C05E2E.inline_segments_unpadded
+
+/-- (re-export of `GM.Props.C05E2E.inline_segments_inside_block_lines`) `inline_segments_inside_block_lines` (clause (c), "inline segments lie inside the block's lines, in order" — round
+    2: PROVED, was searched only). For EVERY source, `WF0` line list, reference map, Unicode class assignment: the
+    segments recorded in the tree `parseBlock` answers, in tree order, start at or behind the start of the block's FIRST
+    line, end at or before the end of its LAST line, none is inverted, each starts at or behind the end of the one
+    before. (GM.Proof.E2ELoLoop / E2ELoLink: the loop invariant and the contracts of the five inline parsers re-run with
+    the lower bound of the segment chain generalised from 0 to the first line's start.) -/
+theorem inline_segments_inside_block_lines : type_of% @GM.Props.C05E2E.inline_segments_inside_block_lines := @GM.Props.C05E2E.inline_segments_inside_block_lines
+
+/-- (re-export of `GM.Props.C05E2E.info_closure_in_range`) `info_closure_in_range` (clause (c) for the two segments of a block that are neither lines nor inline content —
+    round 2: PROVED for every source): FencedCodeBlock.Info and HTMLBlock.ClosureLine lie inside the source -/
+theorem info_closure_in_range : type_of% @GM.Props.C05E2E.info_closure_in_range := @GM.Props.C05E2E.info_closure_in_range
 
 end GM.Props.C05
